@@ -23,9 +23,6 @@ func compGrid(r *wvlib.Rng, thorough bool) []Comp {
 		var g []Comp
 		g = append(g, Comp{"none", 0})
 		for q := -2; q <= 9; q++ {
-			if q == 0 {
-				continue
-			}
 			g = append(g, Comp{"gzip", q})
 		}
 		for q := 0; q <= 9; q++ {
@@ -38,7 +35,7 @@ func compGrid(r *wvlib.Rng, thorough bool) []Comp {
 		}
 		return out
 	}
-	return []Comp{{"none", 0}, {"gzip", r.Pick(-2, -1, 1, 6, 9)}, {"brotli", r.Pick(0, 1, 4, 9)}}
+	return []Comp{{"none", 0}, {"gzip", r.Pick(-2, -1, 0, 1, 6, 9)}, {"brotli", r.Pick(0, 1, 4, 9)}}
 }
 
 // c01One: diff, compare messages with the model, apply fresh, compare the tree with the new build.
